@@ -6,8 +6,9 @@ import IwModel.Model.KvBlk
 `IwModel.KvBlk` and, at every `image <path>` line, compares the model block with the data block of the only node
 in that file image: size power, cached index size, all 32 (off, len) pairs, the records of all used slots, and
 the bytes of every live range (header + index, each record) of `KvBlk.serialize`.
-Answers are the harness's answers (`put ok`, `del ok|notfound`, `cur ok|notfound|nocursor`); `image` when the block
-agrees, `image DIFF <what>` otherwise. -/
+Answers are the harness's answers (`put ok`, `del ok|notfound`, `cur ok|notfound|nocursor`, `dump` without contents); `image` when the
+block agrees, `image UNREADABLE|BAD <reason>` when the independent reader / audit of Model/Format.lean rejects the file (the property
+itself fails), `image DIFF <what>` when the file is well-formed but differs from the model block. -/
 namespace Drv.KvBlk
 open IwModel IwModel.FormatEnc IwModel.Format IwModel.KvBlk
 
@@ -16,6 +17,7 @@ structure St where
   cur : Option Bytes := none
   isOpen : Bool := false
   trace : Bool := false      -- `drv kvblk-trace`: no image reading, every answer carries the branch taken
+  nimg : Nat := 0            -- images seen: every 8th one (and every image of a closed store) gets the full audit incl. the ledger
 
 /-- which branch of `_kvblk_addkv` a call takes -/
 def addTag (b : KvBlk) (k v : Bytes) : String :=
@@ -33,7 +35,9 @@ def rmTag (b : KvBlk) (i : Nat) : String :=
   (if b.szpow > Gen.KVBLK_INISZPOW then
     (if 2 ^ b.szpow ≥ 2 * compactedDsize b1 then
       (if compactedOffset b1 = b1.maxoff then " rm:shrink" else " rm:shrink-compact") ++
-      (if shrinkPow (b.szpow - 1) (compactedDsize b1) < b.szpow - 1 then " rm:shrink-many" else "")
+      (if shrinkPow (b.szpow - 1) (compactedDsize b1) < b.szpow - 1 then " rm:shrink-many" else "") ++
+      (if 2 ^ b.szpow = 2 * compactedDsize b1 then " rm:shrink-exact-half" else "") ++
+      (if 2 ^ (shrinkPow (b.szpow - 1) (compactedDsize b1)) = compactedDsize b1 then " rm:shrink-exact-fit" else "")
      else " rm:big-keep")
    else "")
 
@@ -111,9 +115,15 @@ def cmpNode (m : Img) (s : Sblk) (b : KvBlk) : Option String :=
 
 def cmpImage (st : St) (path : String) : IO String := do
   let m := imgOf (← IO.FS.readBinFile path)
-  match parse m with
+  -- first the independent reader + audit (the property itself), then the comparison with the model block
+  let full := st.nimg % 8 = 0 || !st.isOpen
+  let res := if full then audit m else (parse m).map fun f => (f, f.dbs.flatMap checkDb)
+  match res with
   | .error e => return s!"image UNREADABLE {e}"
-  | .ok f =>
+  | .ok (f, errs) =>
+    match errs with
+    | e :: _ => return s!"image BAD {e}"
+    | [] =>
     match f.dbs with
     | [d] =>
       match d.nodes, st.blk with
@@ -129,8 +139,9 @@ def step (st : St) (ws : List String) : IO (St × String) := do
   match ws with
   | "open" :: _ => return ({ isOpen := true, trace := st.trace }, "open ok")
   | ["close"] => return ({ st with isOpen := false, cur := none }, if st.isOpen then "close ok" else "close invalid_state")
-  | ["image", path] => if st.trace then return (st, "image") else return (st, ← cmpImage st path)
+  | ["image", path] => if st.trace then return (st, "image") else return ({ st with nimg := st.nimg + 1 }, ← cmpImage st path)
   | ["db", _, _] => return (st, "db ok")
+  | ["dump", _] => return (st, "dump")
   | ["put", _, k, _, v, _, _] =>
     let (st', r) := putKv st (Drv.hexArg k) (Drv.hexArg v)
     return (st', "put " ++ r)
